@@ -80,11 +80,16 @@ impl TaintAnalysis {
 
     /// Returns variables tainted in zero or more steps by `source`.
     pub fn multi_step_taint(&self, source: &VariableName) -> HashSet<VariableName> {
+        // Each variable is expanded once, so the work is linear in the number
+        // of taint steps reachable from `source`.
         let mut result = HashSet::new();
-        let mut update = HashSet::from([source.clone()]);
-        while !update.is_subset(&result) {
-            result.extend(update.iter().cloned());
-            update = update.iter().flat_map(|source| self.single_step_taint(source)).collect();
+        let mut work_list = vec![source];
+        while let Some(source) = work_list.pop() {
+            if result.insert(source.clone()) {
+                if let Some(sinks) = self.taint_map.get(source) {
+                    work_list.extend(sinks.iter().filter(|sink| !result.contains(*sink)));
+                }
+            }
         }
         result
     }
